@@ -11,7 +11,7 @@ os.makedirs(dst, exist_ok=True)
 shutil.copy(src + "/patch.diff", dst + "/patch.diff")
 shutil.copy(src + "/demo.py", dst + "/demo.py")
 meta = json.load(open(src + "/meta.json"))
-meta["breaks_property"] = pid
+meta["breaks_property"] = pid[:3]
 if "test result: ok" not in conf:
     meta["note_on_tests"] = "the single failing unit test in the confirmation run, test_command_mode_channel_lists, compares BanInfo.set_time across a second boundary and is flaky on the unchanged tree as well"
 meta["confirmed_by_me"] = {"how": "py/seed_confirm.sh in the agent's scratch worktree: cargo test --offline -- --test-threads=1 with the change; demo.py with the change; git stash; rebuild; demo.py without the change",
